@@ -250,7 +250,37 @@ func c10Run(c c10Case, short int) error {
 	if !bytes.Equal(all, model[start:start+L]) {
 		return fmt.Errorf("fresh reader at $%06X returned %d bytes, want the %d bytes of file [$%06X,$%06X); first difference at %d", addr, len(all), L, start, start+L, firstDiff(all, model[start:start+L]))
 	}
-	return cmp("at end")
+	if err := cmp("at end"); err != nil {
+		return err
+	}
+	// the image is replaced by a longer one (an expanded ROM: one more bank) after readers and writers have been in use:
+	// the new bank is inside the image now, its window can be written and read
+	if size < 1<<20 && c.Banks < 128 {
+		nb := uint32(len(rom.Contents)+0x7FFF) >> 15 // first bank that lies completely in the added part
+		bigger := make([]byte, int(nb+1)<<15)
+		copy(bigger, rom.Contents)
+		for i := len(rom.Contents); i < len(bigger); i++ {
+			bigger[i] = byte(i*7 + 3)
+		}
+		rom.Contents = bigger
+		a2 := nb<<16 | 0x8000 | uint32(c.Off)&0x7FF0
+		s2 := int(nb)<<15 + int(c.Off)&0x7FF0
+		var n int
+		var werr error
+		if pe := rig.Safe(func() error { n, werr = rom.BusWriter(a2).Write([]byte{0xA1, 0xB2, 0xC3}); return nil }); pe != nil || n != 3 || werr != nil {
+			return fmt.Errorf("after the image was replaced by one with another bank, Write(3 bytes) at $%06X (inside the image now) returned (%d, %v), panic %v", a2, n, werr, pe)
+		}
+		got := make([]byte, 5)
+		var rerr error
+		if pe := rig.Safe(func() error { n, rerr = io.ReadFull(rom.BusReader(a2), got); return nil }); pe != nil || n != 5 || rerr != nil {
+			return fmt.Errorf("after the image was replaced by one with another bank, reading 5 bytes at $%06X returned (%d, %v), panic %v", a2, n, rerr, pe)
+		}
+		want := []byte{0xA1, 0xB2, 0xC3, byte((s2+3)*7 + 3), byte((s2+4)*7 + 3)}
+		if !bytes.Equal(got, want) || !bytes.Equal(bigger[s2:s2+3], want[:3]) {
+			return fmt.Errorf("after the image was replaced by one with another bank: wrote a1 b2 c3 at $%06X, the reader returns [% x] and file offset $%X holds [% x]", a2, got, s2, bigger[s2:s2+3])
+		}
+	}
+	return nil
 }
 
 // c10Concurrent uses two readers and two writers of the same ROM at the same time (alternating
@@ -350,9 +380,12 @@ func c10Check(c c10Case) error {
 		return nil
 	}
 	if _, listed := rig.IsKnown("C10", c10Finding); listed {
-		if c10Run(c, 1) == nil {
+		err1 := c10Run(c, 1)
+		if err1 == nil {
 			return &rig.KnownErr{Finding: c10Finding, What: "reader/writer windows end one byte before the end of the bank, so the bank's last byte ($xx:FFFF) can be neither read nor written (pinned by baseline test TestROM_BusReader_Fail_Boundary)"}
 		}
+		// not (only) the listed finding: what deviates even from the model with the shortened window is the news
+		return fmt.Errorf("%v [with the listed finding %s allowed for]", err1, c10Finding)
 	}
 	return err
 }
@@ -464,7 +497,7 @@ func init() {
 func TestC10(t *testing.T) {
 	rig.Main(t, "C10", "rapid histories over ROM.BusWriter/BusReader: image of 1-8 banks (+tail; 129-256 banks in 0.1% of the cases, then mostly addressed at banks >= $80), writes from fresh buffers, through io.Copy and from overlapping slices of the image itself, bus address with edge-biased offset, up to 8 ops "+
 		"(writes whose lengths are solved to end 2/1 before, at and 1-3 beyond the window end, writer re-opens, reads with drawn buffer sizes) "+
-		"against a reference window model; the whole image is compared with the model after every call; plus one write/read history in each of the 256 banks of an 8 MiB image.  Non-trivial = offset >= $8000 and at least one "+
+		"against a reference window model; the whole image is compared with the model after every call; plus one write/read history in each of the 256 banks of an 8 MiB image; every history ends with the image replaced by one that is a bank longer, whose new bank is written and read.  Non-trivial = offset >= $8000 and at least one "+
 		"write, or any op at an offset below $8000; distinct = hash(case).",
 		func(r *rig.Run) {
 			ev := r.Ev
